@@ -39,6 +39,14 @@ type Case struct {
 	Rounds []Round `json:"rounds"`
 	FailAt int64   `json:"fail_at,omitempty"`
 	After  bool    `json:"after,omitempty"`
+
+	// Dying: QoS of the messages published while the subscriber's connection
+	// has been lost but its client is not terminated yet (see runDying);
+	// Before / Offline: messages published before the loss (left
+	// unacknowledged) and after the termination.
+	Dying   []int `json:"dying,omitempty"`
+	Before  []int `json:"before,omitempty"`
+	Offline []int `json:"offline,omitempty"`
 }
 
 type verdict struct{ sig, msg string }
@@ -638,6 +646,116 @@ func runCase(c *Case) (*verdict, result) {
 	return nil, result{ops: r.consumed + r.bconn.Ops(), nontrivial: r.faultWhileUnacked || r.resumes > 0}
 }
 
+// runDying: messages published in the window between the loss of the
+// persistent subscriber's connection and the termination of its client (the
+// backend's Terminate is held to widen that window; a Backend may take any
+// time there). The session queue has room, so every one of them - like those
+// published before and after - must reach the subscriber after the resume.
+func runDying(c *Case) *verdict {
+	b := bk.New(func(m *broker.MemoryBackend, e *broker.Engine) { m.ClientInflightMessages = c.Window })
+	defer b.Shutdown()
+	fail := func(sig, format string, a ...interface{}) *verdict {
+		return &verdict{sig, fmt.Sprintf(format, a...) + "\n--- event log ---\n" + b.Log.Dump()}
+	}
+	s, sconn := b.Dial("sub")
+	if _, err := s.ConnectID("sub", false); err != nil {
+		return fail("harness/connect", "%v", err)
+	}
+	if _, err := s.Subscribe([]packet.Subscription{{Topic: "c08/t", QOS: 2}}); err != nil {
+		return fail("harness/subscribe", "%v", err)
+	}
+	p, _ := b.Dial("pub")
+	if _, err := p.ConnectID("pub", true); err != nil {
+		return fail("harness/connect", "%v", err)
+	}
+	type m struct {
+		tag string
+		qos int
+	}
+	var all []m
+	publish := func(phase string, qs []int) *verdict {
+		for i, q := range qs {
+			tag := fmt.Sprintf("%s-%d-q%d", phase, i, q)
+			if err := p.Publish("c08/t", []byte(tag), packet.QOS(q), false); err != nil {
+				return fail("harness/publish", "%s: %v", tag, err)
+			}
+			all = append(all, m{tag, q})
+		}
+		return nil
+	}
+	s.AutoAck = false
+	if v := publish("before", c.Before); v != nil {
+		return v
+	}
+	if len(c.Before) > 0 {
+		// the first of them has arrived (and stays unacknowledged)
+		if s.WaitFor(0, func(g packet.Generic) bool { _, ok := g.(*packet.Publish); return ok }, ev.Ceiling()) < 0 {
+			return fail("delivery/missing", "the first message did not arrive on the live connection")
+		}
+	}
+	entered, release := b.Rec.HoldTerminate("sub")
+	defer release()
+	s.Drop()
+	select {
+	case <-entered:
+	case <-time.After(ev.Ceiling()):
+		return fail("liveness/client-not-terminated", "the subscriber's connection was lost but Terminate was never called")
+	}
+	if v := publish("dying", c.Dying); v != nil {
+		return v
+	}
+	release()
+	if !b.WaitClosed(sconn) {
+		return fail("liveness/client-not-terminated", "the subscriber's client never finished closing")
+	}
+	if v := publish("offline", c.Offline); v != nil {
+		return v
+	}
+	s2, _ := b.Dial("sub2")
+	ack, err := s2.ConnectID("sub", false)
+	if err != nil {
+		return fail("harness/connect", "resume: %v", err)
+	}
+	if !ack.SessionPresent {
+		return fail("connack/session-present", "the persistent session was not resumed")
+	}
+	// wait for the messages themselves
+	got := map[string]int{}
+	fresh := map[string]int{}
+	deadline := time.Now().Add(ev.Ceiling())
+	complete := func() bool {
+		for _, x := range all {
+			if got[x.tag] == 0 {
+				return false
+			}
+		}
+		return true
+	}
+	scanned := 0
+	for !complete() && time.Now().Before(deadline) && !s2.EOF {
+		s2.PumpWait(5 * time.Millisecond)
+		for ; scanned < len(s2.Inbox); scanned++ {
+			if pub, ok := s2.Inbox[scanned].(*packet.Publish); ok {
+				got[string(pub.Message.Payload)]++
+				if !pub.Dup {
+					fresh[string(pub.Message.Payload)]++
+				}
+			}
+		}
+	}
+	for _, x := range all {
+		if got[x.tag] == 0 {
+			phase := strings.SplitN(x.tag, "-", 2)[0]
+			sig := "resume/message-lost:" + phase
+			return fail(sig, "QoS %d message %s was acknowledged to its publisher (%s: %s) but never reached the persistent subscriber after the resume, although its queue had room (%d messages in all)", x.qos, x.tag, phase, map[string]string{"before": "published on the live connection, left unacknowledged", "dying": "published after the connection was lost and before the client was terminated", "offline": "published while the subscriber was offline"}[phase], len(all))
+		}
+		if x.qos == 2 && fresh[x.tag] > 1 {
+			return fail("qos2/offered-twice-as-new", "QoS 2 message %s was offered %d times as a new (non-duplicate) delivery", x.tag, fresh[x.tag])
+		}
+	}
+	return nil
+}
+
 func genCase(rt *rapid.T) *Case {
 	c := &Case{Window: rapid.IntRange(1, 4).Draw(rt, "window")}
 	n := rapid.IntRange(1, 5).Draw(rt, "rounds")
@@ -660,7 +778,7 @@ func genCase(rt *rapid.T) *Case {
 func TestC08(t *testing.T) {
 	run := ev.Start("C08", "fault_enumeration")
 	run.Rule("subscriber scripts of 1-5 rounds over {publish 0-3 QoS 1/2 messages (online, window-blocked or offline), per-delivery action full/half/withhold, drop / DISCONNECT / reconnect clean / reconnect unclean}, window 1-4, at most window+2 messages in flight; every script is run fault free and then once per (operation k, before/after) for EVERY packet on the subscriber's broker-side connection(s), including positions inside the resend phase. Oracle: correct-receiver model + event history (session holds the packet when it is sent and until it is acknowledged, unacknowledged packets retransmitted with DUP / as PUBREL after an unclean reconnect, QoS 2 never re-offered without DUP, nothing accepted is lost, session-present truthful, clean connect discards everything). non-trivial = the connection was lost while a delivery was unacknowledged, or a resume retransmitted something; distinct by (script, fault)")
-	run.Assume("messages are only published while the subscriber's connection state is settled (alive and quiescent, or fully terminated): the memory backend documents that it may drop messages for a client that is going offline")
+	run.Assume("scripts: messages are only published while the subscriber's connection state is settled (alive and quiescent, or fully terminated); the window in between is the subject of the dying-window runs (queue never full there: a full queue of a client that is going offline is skipped by documented design)")
 	defer run.Finish(t)
 
 	faultRuns := 0
@@ -711,6 +829,20 @@ func TestC08(t *testing.T) {
 		})
 	})
 	run.Set("fault_positions_enumerated", faultRuns)
+
+	// messages published while the subscriber's client is dying
+	qs := rapid.SliceOfN(rapid.SampledFrom([]int{1, 2}), 0, 3)
+	run.Rapid(t, "dying-window", ev.Pick(120, 4000), func(rt *rapid.T) {
+		c := &Case{Window: rapid.IntRange(1, 4).Draw(rt, "window"), Before: qs.Draw(rt, "before"), Offline: qs.Draw(rt, "offline")}
+		c.Dying = rapid.SliceOfN(rapid.SampledFrom([]int{1, 2}), 1, 6).Draw(rt, "dying")
+		run.Eval(1)
+		run.Class("dying-window")
+		run.NonTrivialJSON(c)
+		if v := runDying(c); v != nil {
+			run.Candidate(v.sig, v.msg, c)
+			rt.Fatalf("%s: %s", v.sig, v.msg)
+		}
+	})
 }
 
 func TestReplay(t *testing.T) {
@@ -723,6 +855,12 @@ func TestReplay(t *testing.T) {
 		t.Fatal(err)
 	}
 	for i := 0; i < 5; i++ {
+		if len(c.Dying) > 0 {
+			if v := runDying(&c); v != nil {
+				t.Fatalf("VIOLATION reproduced: %s: %s", v.sig, v.msg)
+			}
+			continue
+		}
 		if v, _ := runCase(&c); v != nil {
 			t.Fatalf("VIOLATION reproduced: %s: %s", v.sig, v.msg)
 		}
